@@ -13,11 +13,11 @@ const char* RULE =
     "are reported per (class, d).";
 void harness_init() { quiet_gsl(); }
 
-static const char* CLS[] = {"dense", "sparse", "diagonal", "projector", "identity-multiple", "single-generator", "repeated-eigenvalues", "near-degenerate", "zero", "zero-02-entry", "mixed-scales"};
+static const char* CLS[] = {"dense", "sparse", "diagonal", "projector", "identity-multiple", "single-generator", "repeated-eigenvalues", "near-degenerate", "zero", "zero-02-entry", "mixed-scales", "unit-and-tiny-generators", "unit-and-tiny-generators"};
 
 void run_case(ByteSource& s, CaseInfo& ci) {
   int d = gen_dim(s);
-  unsigned k = s.choose(11);
+  unsigned k = s.choose(13);
   bool order = !s.flag();
   std::vector<double> c(d * d, 0.0);
   std::vector<ld> known;  // constructed spectrum, if any
@@ -41,13 +41,21 @@ void run_case(ByteSource& s, CaseInfo& ci) {
       known = l; std::sort(known.begin(), known.end());
       break;
     }
+    case 11: case 12: {  // a few generators with coefficient +-1 next to a few with a tiny (but normal) coefficient 10^-u: the entries of an
+      // operator whose coherences have decayed; the reduced columns of a tridiagonalisation are high powers of the tiny entries
+      int nu = 1 + (int)s.choose(3), nt = 1 + (int)s.choose(3);
+      for (int q = 0; q < nu; q++) c[s.u16() % (unsigned)(d * d)] = s.flag() ? 1.0 : -1.0;
+      double u = 20 + 290 * s.unif01();  // 1e-20 .. 1e-310
+      for (int q = 0; q < nt; q++) c[s.u16() % (unsigned)(d * d)] = (s.flag() ? 1.0 : -1.0) * std::pow(10.0, -u) * (s.flag() ? 1.0 : 1.0 + s.unif01());
+      break;
+    }
     case 8: break;
     case 9: { c = gen_dense(s, d); if (d >= 3) { c[2] = 0; c[2 * d] = 0; } break; }
     default: { for (int i = 0; i < d * d; i++) c[i] = s.dense() * std::ldexp(1.0, s.range(-27, 27)); break; }
   }
   if (k != 8 && s.choose(3) == 1) { double sc = std::ldexp(1.0, s.range(-100, 100)); for (auto& x : c) x *= sc; for (auto& x : known) x *= sc; ci.label("rescaled"); }
-  // domain bound (DESIGN.md C12 B): magnitudes whose squares underflow are outside the explored range
-  for (auto& x : c) if (fabs(x) < 0x1p-300) x = 0.0;
+  // (until /repo fix 30a0961 entries below 2^-300 were flushed here as a domain bound: their squares underflow inside GSL's Householder
+  // steps. The library now conditions the matrix itself, so tiny and subnormal entries are part of the domain again.)
   ci.nontrivial = true;
   ci.label(fmt("%s-d%d", CLS[k], d)); ci.label(order ? "ordered" : "unordered");
   ci.sample = fmt("GetEigenSystem(order=%d) d=%d class=%s comps=%s", (int)order, d, CLS[k], vec_str(c).c_str());
@@ -97,5 +105,17 @@ void regressions() {
     Mat M = toM(c, 3), V = fromGsl(es.second.get()), D(3);
     for (int i = 0; i < 3; i++) { double l = gsl_vector_get(es.first.get(), i); CHECK(std::isfinite(l), "C12|GetEigenSystem|nonfinite|dim=3", "regression: eigenvalue %d of %s", i, vec_str(c).c_str()); D.a[i][i] = cld(l, 0); }
     CHECK(all_finite(V) && frob(M * V - V * D) <= 1e-12L * frob(M) + TINY && unitarity_defect(V) <= 1e-12L, "C12|GetEigenSystem|nonfinite|dim=3", "regression: invalid decomposition of %s", vec_str(c).c_str());
+  }
+  // 30a0961: entries of order one next to tiny ones, and uniformly tiny matrices (NaN from underflow inside gsl_eigen_hermv)
+  struct { int d; std::vector<std::pair<int, double>> e; } wide[] = {
+    {6, {{4, 1.0}, {10, 1.0}, {6, -1e-40}, {9, 1e-40}}}, {4, {{3, 1.0}, {0, 1e-110}, {4, 1e-100}}}, {6, {{1, -1.0}, {27, -1.0}, {3, 1e-30}, {6, 1e-30}, {35, -1e-30}}},
+    {4, {{0, 1e-300}, {3, 1e-300}}}, {3, {{0, 1.0}, {2, 1e-310}}}, {5, {{0, 1.0}, {2, 1e-310}}}};
+  for (auto& w : wide) {
+    std::vector<double> c(w.d * w.d, 0.0); for (auto& pr : w.e) c[pr.first] = pr.second;
+    SU_vector v = make_vec(c, w.d);
+    auto es = v.GetEigenSystem(true);
+    Mat M = toM(c, w.d), V = fromGsl(es.second.get()), D(w.d); bool fin = all_finite(V);
+    for (int i = 0; i < w.d; i++) { double l = gsl_vector_get(es.first.get(), i); fin = fin && std::isfinite(l); D.a[i][i] = cld(l, 0); }
+    CHECK(fin && frob(M * V - V * D) <= 1e-12L * frob(M) + TINY && unitarity_defect(V) <= 1e-12L, fmt("C12|GetEigenSystem|nonfinite|dim=%d", w.d), "regression: invalid decomposition of %s", vec_str(c).c_str());
   }
 }
